@@ -478,8 +478,12 @@ func (c *Client) recv(keepaliveQuit chan<- struct{}) {
 	stopKeepalive := func() { stopOnce.Do(func() { close(keepaliveQuit) }) }
 	defer stopKeepalive()
 
+	// This receiver serves one connection: the one the transport holds now. The transport object is shared by the
+	// successive connections of the client, so the decoder is taken once and never fetched again.
+	decoder := c.transport.GetDecoder()
+
 	for {
-		val, err := stanza.NextPacket(c.transport.GetDecoder())
+		val, err := stanza.NextPacket(decoder)
 		if err != nil {
 			stopKeepalive()
 			c.ErrorHandler(err)
@@ -490,11 +494,22 @@ func (c *Client) recv(keepaliveQuit chan<- struct{}) {
 		// Handle stream errors
 		switch packet := val.(type) {
 		case stanza.StreamError:
+			// A stream error is unrecoverable (RFC 6120 4.9.1.1): this connection is over, and so is its keepalive.
+			stopKeepalive()
 			c.router.route(c, val)
 			c.streamError(packet.Error.Local, packet.Text)
 			c.ErrorHandler(errors.New("stream error: " + packet.Error.Local))
+			if c.transport.GetDecoder() != decoder {
+				// The event handler has already replaced the connection: a StreamManager reconnects from inside the
+				// handler and only returns once the new session, with its own receiver and keepalive, is up. The
+				// transport belongs to that session now: closing it here would end the new session, and reading on
+				// would put two receivers on one connection.
+				return
+			}
 			// We don't return here, because we want to wait for the stream close tag from the server, or timeout.
 			c.Disconnect()
+			// The packet has been routed above.
+			continue
 		// Process Stream management nonzas
 		case stanza.SMRequest:
 			answer := stanza.SMAnswer{XMLName: xml.Name{
